@@ -228,3 +228,20 @@ def model_history(r):
             else:
                 outs.append((('ok', atom_bytes(v)), int(n)))
     return outs
+
+
+def exc_site(e):
+    """Innermost function of the torf package (or flatbencode) on the traceback of e."""
+    import traceback
+    site = '?'
+    for fr in traceback.extract_tb(e.__traceback__):
+        if '/torf/' in fr.filename or 'flatbencode' in fr.filename:
+            site = fr.name
+    return site
+
+
+def canon_exc_site(e):
+    c = canon_exc(e)
+    if isinstance(e, terr.TorfError):
+        return c
+    return c + ('@' + exc_site(e),)
